@@ -72,6 +72,55 @@ def run(res, tier):
             else:
                 res.ok("R-TASK", f"{task[1]}:{k[1]}", None)
 
+    # ---------------------------------------------------------------- shared task argument
+    # every task receives the same `arg`; tasks may write memory reached through it only at addresses derived from their
+    # task index (array elements), never a scalar member of the shared argument structure (an unsynchronised RMW)
+    res.rule("R-TASK-ARG", "task functions do not write scalar members of the shared task argument", floor=3)
+    units = {}
+    for task, site in sorted(tasks.items()):
+        tu = task[0]
+        if tu not in units:
+            units[tu] = engine.unit(tu)
+        fn = units[tu].funcs.get(task[1])
+        if fn is None:
+            raise AnalysisError(f"task function {task[1]} not found in {tu}")
+        ps = cir.params(fn)
+        argp = [p_.get("n") for p_ in ps if (p_.get("t") or "").replace(" ", "") == "void*"]
+        if len(argp) != 1:
+            raise AnalysisError(f"{task[1]}: cannot identify the void* task argument")
+        shared = {argp[0]}
+        # locals that are the argument itself (cast / copy), not offsets computed from it
+        for x in cir.walk(fn):
+            if x.get("k") == "VarDecl" and x.get("init"):
+                init = cir.strip([c for c in cir.kids(x) if c][-1])
+                if init is not None and init.get("k") == "DeclRefExpr" and (init.get("ref") or {}).get("n") in shared:
+                    shared.add(x.get("n"))
+        bad = []
+        for n in cir.walk(fn):
+            k_ = n.get("k")
+            if (k_ == "BinaryOperator" and n.get("op") == "=") or k_ == "CompoundAssignOperator" or \
+                    (k_ == "UnaryOperator" and n.get("op") in ("++", "--")):
+                l = cir.strip(cir.kids(n)[0])
+                if l is not None and l.get("k") == "MemberExpr" and l.get("arrow"):
+                    b = cir.strip(cir.kids(l)[0])
+                    if b is not None and b.get("k") == "DeclRefExpr" and (b.get("ref") or {}).get("n") in shared:
+                        bad.append((n.get("line"), cir.text(n)))
+                if l is not None and l.get("k") == "UnaryOperator" and l.get("op") == "*":
+                    b = cir.strip(cir.kids(l)[0])
+                    if b is not None and b.get("k") == "DeclRefExpr" and (b.get("ref") or {}).get("n") in shared:
+                        bad.append((n.get("line"), cir.text(n)))
+        if bad:
+            for line, txt in bad:
+                res.bad("R-TASK-ARG", f"{task[1]}:shared-arg-write", fn.get("file") or tu, line,
+                        f"`{txt[:120]}` writes a scalar member of the argument shared by all tasks of the dispatch: concurrent tasks race on it "
+                        f"(lost updates), results depend on the schedule")
+        else:
+            res.ok("R-TASK-ARG", task[1], {"shared_names": sorted(shared)})
+
+    # the stack allocator's threadlock branch (shared with C19): atomic reservation, block derived from its result
+    from . import c19 as _c19
+    _c19.threadlock_shape(res)
+
     # ---------------------------------------------------------------- the dispatcher itself
     res.rule("R-DISPATCH", "mju_dispatch: serial fallback runs every task id once; pooled path brackets the pool dispatch with frame + "
              "threadlock on all paths; threadlock is written nowhere else", floor=4)
